@@ -11,6 +11,33 @@ theorem exec_append (s : State) (ops1 ops2 : List Op) :
 theorem run_append (cfg : Config) (ops1 ops2 : List Op) :
     run cfg (ops1 ++ ops2) = (run cfg ops1).exec ops2 := exec_append _ _ _
 
+/-! ## runs with a body are ordinary histories -/
+
+theorem exec_cons (s : State) (op : Op) (ops : List Op) :
+    s.exec (op :: ops) = (s.step op).1.exec ops := rfl
+
+/-- A history with job bodies reaches a state that a plain history reaches too (the run, then — if it
+selected anything — the body's immediate accesses, then its deferred commands). -/
+theorem hexec_reachable (s : State) (hops : List HOp) : ∃ ops : List Op, s.hexec hops = s.exec ops := by
+  induction hops generalizing s with
+  | nil => exact ⟨[], rfl⟩
+  | cons h t ih =>
+    obtain ⟨ops', hops'⟩ := ih (s.hstep h).1
+    show ∃ ops, (s.hstep h).1.hexec t = s.exec ops
+    rw [hops']
+    cases h with
+    | plain o => exact ⟨o :: ops', rfl⟩
+    | runDo j body =>
+      simp only [State.hstep]
+      split
+      · exact ⟨.run j :: ops', rfl⟩
+      · refine ⟨.run j :: (bodyOrder (s.jobRun j).1.nextEnt body ++ ops'), ?_⟩
+        rw [exec_cons, exec_append]
+        rfl
+
+theorem hrun_reachable (cfg : Config) (hops : List HOp) : ∃ ops : List Op, hrun cfg hops = run cfg ops :=
+  hexec_reachable (init cfg) hops
+
 /-! ## `pending` -/
 
 theorem writeAt_pending_mono (s : State) (ai i e0 c0 j e c : Nat) (h : s.pending j e c = true) :
@@ -37,15 +64,19 @@ theorem depart_pending_mono (s : State) (ai i j e c : Nat) (h : s.pending j e c 
     · rfl
     · exact h
 
-theorem moveTo_pending_mono (s : State) (ai i e0 : Nat) (m : List Comp) (j e c : Nat)
-    (h : s.pending j e c = true) : (s.moveTo ai i e0 m).1.pending j e c = true := by
+theorem moveTo_pending_mono (s : State) (ai i e0 : Nat) (m : List Comp) (same : Out) (j e c : Nat)
+    (h : s.pending j e c = true) : (s.moveTo ai i e0 m same).1.pending j e c = true := by
   unfold State.moveTo
   cases hg : s.getArch m with
   | error p => exact h
   | ok p =>
     obtain ⟨s1, aj⟩ := p
-    apply arrive_pending_mono; apply depart_pending_mono
-    rw [(getArch_jobs hg).2]; exact h
+    simp only
+    split
+    · show s1.pending j e c = true
+      rw [(getArch_jobs hg).2]; exact h
+    · apply arrive_pending_mono; apply depart_pending_mono
+      rw [(getArch_jobs hg).2]; exact h
 
 /-- `pending j e c` is cleared by nothing but a run of `j`. -/
 theorem pending_mono (s : State) (op : Op) (j e c : Nat) (hop : op ≠ .run j)
@@ -86,17 +117,18 @@ theorem pending_mono (s : State) (op : Op) (j e c : Nat) (hop : op ≠ .run j)
   | assign e0 c0 =>
     simp only [State.step]
     repeat' split
-    all_goals first | exact h | exact moveTo_pending_mono _ _ _ _ _ _ _ _ h
+    all_goals first | exact h | exact moveTo_pending_mono _ _ _ _ _ _ _ _ _ h
   | remove e0 c0 =>
     simp only [State.step]
     repeat' split
-    all_goals first | exact h | exact moveTo_pending_mono _ _ _ _ _ _ _ _ h
+    all_goals first | exact h | exact moveTo_pending_mono _ _ _ _ _ _ _ _ _ h
   | destroyNow e0 =>
     simp only [State.step]
     repeat' split
     all_goals first | exact h | exact depart_pending_mono _ _ _ _ _ _ h
   | setDefault n => simp only [State.step]; split <;> exact h
   | addFn m mn mx => exact h
+  | addDep c0 ds => exact h
 
 theorem exec_pending_mono (s : State) (ops : List Op) (j e c : Nat) (hops : ∀ op ∈ ops, op ≠ .run j)
     (h : s.pending j e c = true) : (s.exec ops).pending j e c = true := by
@@ -118,6 +150,8 @@ theorem vf_fmask {J : Job} (hvf : VersionFiltered (specOf J)) {a : Arch} (hreq :
     have hc0 : c0 ∈ J.check := by rw [hc]; exact List.mem_cons_self ..
     have hr : c0 ∈ J.req := hsub c0 hc0
     unfold Job.reqOk at hreq
+    rw [Bool.and_eq_true] at hreq
+    replace hreq := hreq.1
     rw [List.all_eq_true] at hreq
     have hm : c0 ∈ a.mask := List.contains_iff_mem.mp (hreq c0 hr)
     have : c0 ∈ a.fmask (c0 :: r) := by rw [← hc]; exact mem_fmask.mpr ⟨hc0, hm⟩
@@ -136,6 +170,7 @@ theorem step_quiet {s : State} (h : Inv s) {specs : List JobSpec} (hs : s.jobs.m
   | getConst e c => rw [getConst_state]; exact hq
   | setDefault n => simp only [State.step]; split <;> exact hq
   | addFn m mn mx => exact hq
+  | addDep c0 ds => exact hq
   | getMut e c =>
     have hc : ∀ J, s.jobs[j]? = some J → c ∉ J.check := by
       intro J hj hcc
